@@ -486,6 +486,19 @@ func contradicts(cs []Cond) bool {
 		return false
 	}
 	last := cs[len(cs)-1]
+	// a comparison whose normal form is a constant is decided by arithmetic (x == x+1 is infeasible)
+	if pl, kind, ok := last.Rel().IntNorm(); ok {
+		if k, isC := pl.IsConst(); isC {
+			switch kind {
+			case ">":
+				return !(k > 0)
+			case "=":
+				return k != 0
+			case "!=":
+				return k == 0
+			}
+		}
+	}
 	lt, lp := stripNot(last.T, last.Pol)
 	k := lt.Key()
 	for _, c := range cs[:len(cs)-1] {
@@ -681,6 +694,11 @@ func (w *walker) store(st *pstate, addr, val *Term) {
 			delete(st.mem, mk)
 			delete(st.memCls, mk)
 		}
+	}
+	if addr.Op == "iaddr" && addr.Args[0].Op == "alloc" {
+		// an element store makes a cached whole-array value stale
+		delete(st.mem, addr.Args[0].Key())
+		delete(st.memCls, addr.Args[0].Key())
 	}
 	if addr.Op == "faddr" {
 		// a field store makes a cached whole-value stale: fold it into field entries
